@@ -138,6 +138,10 @@ void ambientResetPerRun() {
     g_simNs = 0;
     g_simRand = 0x2545F4914F6CDD1DULL;
 }
+void ambientResetStreams() {
+    g_simNs = 0;
+    g_simRand = 0x2545F4914F6CDD1DULL;
+}
 AmbientReads ambientReads() { return g_reads; }
 
 extern "C" {
